@@ -33,6 +33,8 @@ pub fn sub(
     );
 
     for _ in 0..constraints.len() {
+        #[cfg(feature = "verif")]
+        crate::verif_hooks::bump(3);
         let mut constr = constraints.pop_constr().expect("Cannot be empty");
         constraint_pos += 1;
         macro_rules! replace {
